@@ -993,9 +993,13 @@ def rule_R24_inline(unit, rel, text, ctx):
                     binds.append(('vx_self', None, recv))
                 else:
                     amp = '&mut ' if 'mut' in sp and '&' in sp else ('&' if '&' in sp else '')
-                    if recv == 'self' or recv.startswith('&'):
-                        amp = ''
-                    binds.append(('vx_self', None, amp + recv if amp and not recv == 'self' else recv))
+                    flip = getattr(unit, 'inline_flip', False)
+                    simple = re.match(r'^[A-Za-z_]\w*$', recv) is not None
+                    if recv == 'self' or recv.startswith('&') or (simple and not flip) or (not simple and flip):
+                        # a plain variable is taken to hold a reference already (typed `&mut _` binding = reborrow)
+                        binds.append(('vx_self', (amp.strip() + ' _') if amp else None, recv))
+                    else:
+                        binds.append(('vx_self', None, amp + recv))
                 params = params[1:]
                 has_self = True
             else:
@@ -1939,8 +1943,8 @@ def emit_block(unit, loc, dlines, tmpl_where):
         # in the replacement
         def _tok(t):
             parts = re.split(r'(\$[1-9])', t)
-            return ''.join(('(?P<w%s>(?:[^,()]|\\([^()]*\\))+?)' % q[1]) if re.match(r'^\$[1-9]$', q) else re.escape(q) for q in parts)
-        rx = re.compile(r'\s*'.join(_tok(t) for t in a.split()))
+            return ''.join(('(?P<w%s>(?:[^,();{}=]|\\((?:[^()]|\\([^()]*\\))*\\))+?)' % q[1]) if re.match(r'^\$[1-9]$', q) else re.escape(q) for q in parts)
+        rx = re.compile(r'\s*'.join(_tok(t) for t in re.findall(r'\$[1-9]|\w+|[^\w\s]', a)))
         hits = list(rx.finditer(blk))
         if not hits:
             # nothing to rename: the block no longer mentions this expression (logged; the contract decides)
